@@ -343,6 +343,9 @@ def program_src(pkg, op):
         L += ["// Deprecated: true", "//"]
     if "security" in op["blocks"]:
         L += ["// Security:", "//   api_key:", "//"]
+    if "inline_params" in op["blocks"]:
+        L += ["// Parameters:", "//   + name: ilimit", "//     in: query", "//     description: inline limit", "//     required: false",
+              "//     type: integer", "//     format: int32", "//"]
     resp = {"none": [], "default_only": ["default: genericError"], "ok_and_default": ["default: genericError", "200: petResponse"],
             "three": ["default: genericError", "200: petResponse", "422: validationError"]}[op["resp"]]
     if resp:
@@ -395,7 +398,9 @@ def check_c17(run):
         pkg = "p%d" % i
         if c["kind"] == "program":
             open(os.path.join(d, "api.go"), "w").write(program_src(pkg, c["op"]))
-            if c["merge"] != "none":
+            if c["merge"] == "self":
+                open(os.path.join(d, "selfmerge"), "w").write("scan twice: the second time with the first output as input\n")
+            elif c["merge"] != "none":
                 inp = json.loads(json.dumps(INPUT_SPEC))
                 if c["merge"] == "same_op":
                     o = c["op"]
